@@ -194,7 +194,7 @@ func xrename(src, dst string) xop {
 }
 
 var alphabet = []xop{
-	xput("/a"), xput("/b"),
+	xput("/a"), xput("/b"), xput("/x/c"),
 	xlink("/a", "/b"), xlink("/b", "/a"), xlink("/a", "/x/c"),
 	xupdate("/a", "keep+add", "create"), xupdate("/a", "replace", "update"), xupdate("/b", "replace", "create"), xupdate("/a", "wrap", "create"), xupdate("/a", "wrap", "update"),
 	xdelete("/a", "data"), xdelete("/b", "data"), xdelete("/a", "nodata"), xdelete("/a", "mount"), xdelete("/b", "mount"), xdelete("/x", "rdata"), xdelete("/x", "rnodata"), xdelete("/x/c", "mount"),
@@ -202,12 +202,21 @@ var alphabet = []xop{
 }
 
 // TestPropExhaustiveSequences executes every sequence of operations from the
-// alphabet up to the tier's length in which every step acts.
+// alphabet up to the tier's length in which every step acts. Each sequence is
+// run from an empty tree by exactly one shard (chosen by a hash of the
+// sequence); a shard that finds a prefix without effect prunes its extensions.
 func TestPropExhaustiveSequences(t *testing.T) {
-	maxLen := vlib.Pick(4, 6)
+	maxLen := vlib.Pick(4, 5)
 	total, executed := 0, 0
-	var rec func(prefix []int)
-	runSeq := func(seq []int) (valid bool) {
+	owns := func(seq []int) bool {
+		h := uint32(2166136261)
+		for _, k := range seq {
+			h = (h ^ uint32(k+1)) * 16777619
+		}
+		return int(h%uint32(vlib.Shards())) == vlib.Shard()
+	}
+	// runSeq executes seq; when step j does not act it returns j, else -1.
+	runSeq := func(seq []int) (failedAt int) {
 		d := newDriver(func(format string, args ...interface{}) {
 			var names []string
 			for _, k := range seq {
@@ -227,51 +236,33 @@ func TestPropExhaustiveSequences(t *testing.T) {
 			})
 			if !ok {
 				d.cleanup()
-				return false
+				return i
 			}
 		}
 		d.finish("seq: ")
-		return true
+		return -1
 	}
-	// The index space is split over the shards by the first two operations.
-	rec = func(prefix []int) {
-		if len(prefix) > 0 {
-			// a sequence is executed as a whole (fresh root); prefixes that are not valid prune their extensions
-			if len(prefix) >= 2 && !vlib.ShardOwns(prefix[0]*len(alphabet)+prefix[1]) {
-				return
+	// rec returns -1, or the length of a prefix of the current sequence found to be without effect.
+	var rec func(prefix []int) int
+	rec = func(prefix []int) int {
+		if len(prefix) > 0 && owns(prefix) {
+			total++
+			if j := runSeq(prefix); j >= 0 {
+				return j + 1
 			}
-			if len(prefix) == 1 && maxLen > 1 {
-				// length-1 sequences: shard 0 only; still descend in every shard
-				if vlib.Shard() == 0 {
-					total++
-					if runSeq(prefix) {
-						executed++
-					}
-				}
-				if !validPrefix(prefix) {
-					return
-				}
-			} else {
-				total++
-				if !runSeq(prefix) {
-					return
-				}
-				executed++
-			}
+			executed++
 		}
 		if len(prefix) == maxLen {
-			return
+			return -1
 		}
 		for k := range alphabet {
-			rec(append(append([]int{}, prefix...), k))
+			if r := rec(append(append([]int{}, prefix...), k)); r != -1 && r <= len(prefix) {
+				return r
+			}
 		}
+		return -1
 	}
 	rec(nil)
-	vlib.Note(fmt.Sprintf("C20 exhaustive: shard %d executed %d of %d candidate sequences of length <=%d over %d operations (the rest pruned: a step without effect or excluded by a listed finding)", vlib.Shard(), executed, total, maxLen, len(alphabet)))
+	vlib.Note(fmt.Sprintf("C20 exhaustive: shard %d executed %d of its %d candidate sequences of length <=%d over %d operations (the rest pruned: a step without effect or excluded by a listed finding)", vlib.Shard(), executed, total, maxLen, len(alphabet)))
 	vlib.Exhaustive(fmt.Sprintf("op-sequences-len<=%d", maxLen), true)
-}
-
-// validPrefix reports whether a length-1 sequence acts (only the two puts do on an empty tree).
-func validPrefix(prefix []int) bool {
-	return strings.HasPrefix(alphabet[prefix[0]].name, "put ")
 }
